@@ -187,7 +187,8 @@ Variants ==
 
 \* ---------------------------------------------------------------- faults
 AdvWord == {"-1", "0", "1", "2", "3", "255", "256", "4194304", "2147483647", "4294967296",
-            "9223372036854775807", "-9223372036854775808", "abc", "NaN", "1e999", "0x10", "-"}
+            "9223372036854775807", "-9223372036854775808", "9223372036854775808", "18446744073709551615",
+            "18446744073709551616", "+3", "3.0", "abc", "NaN", "1e999", "0x10", "-"}
 AdvKey == {"element", "property", "list", "uchar", "int8", "uint", "int", "float64", "ushort", "end_header", "comment",
            "vertex", "face", "x", "solid", "endsolid", "facet", "endfacet", "OFF", "binary_big_endian"}
 AdvBin == {"0", "1", "3", "127", "128", "255", "65535", "4194304", "2147483647", "2147483648", "4294967295"}
